@@ -12,6 +12,7 @@
     opensrc <kind> <sym> <suid> <sgid> <sticky> <nlink> <c> <f> <k>     -> "<code> <exit status>"
     runfile <c|d> <fmt> <sfx|none> <c> <f> <k> <name> <kind> <sym> <srcmode> <nlink> <destkind> <gfail> <ofail> <nowarn>
                                             -> "A=<action> D=<dest hex|-> M=<mode|-> R=<0|1> X=<exit status>"
+    plan <listmode> <list bytes> <operand>...   -> what main() hands to coder_run(): names in hex, 0153 = stdin, 0152 = refused, 0145 = list error
     args <prog> <env> <o1> <o2>             -> decimal (Settings.code of parseArgs; indices as in Gen argsRows)
     status <nowarn> <w|e>...                -> decimal exit status of a run reporting these events
     attrs <d|c> <keep> <nosparse> <nosync> <srcmode> <srcuid> <srcgid> <srcatime ns> <srcmtime ns> <procuid> <destgid>
@@ -167,6 +168,10 @@ def step (_ : Unit) (ws : List String) : Unit × String :=
       | none => ((), "bad-op")
     | some _, some none, some _, some _, some _ => ((), "fatal")
     | _, _, _, _, _ => ((), "bad-op")
+  | "plan" :: lm :: lb :: ops =>
+    match lm.toNat?, bytesOfHex lb, ops.mapM bytesOfHex with
+    | some lm, some lb, some ops => ((), " ".intercalate ((mainPlanCode ops lm lb).map hexOfBytes))
+    | _, _, _ => ((), "bad-op")
   | ["args", p, e, o1, o2] =>
     match p.toNat?, e.toNat?, o1.toNat?, o2.toNat? with
     | some p, some e, some o1, some o2 =>
